@@ -7,6 +7,18 @@ pid, tag = sys.argv[1], sys.argv[2]
 emph = sys.argv[3] if len(sys.argv) > 3 else 'r4'
 prop = [json.loads(l) for l in open('/verif/properties.jsonl') if json.loads(l)['id'] == pid][0]
 EMPH = {
+ 'r5': """Kinds of change I am most interested in this time (pick two DIFFERENT kinds, in two DIFFERENT functions, ideally in two different files):
+ * a defect in code that is NOT named in the anchors above but on which the property depends: a helper in another module, a conversion
+   (From / TryFrom / Into), a Default, an Ord / PartialEq / Hash impl, an iterator adaptor chain, a small accessor, a macro-generated arm;
+ * a state-machine slip: a flag or state set / cleared at the wrong moment, not reset on reconnect or restart, or tested in the wrong state;
+ * error handling: an error swallowed, mapped to the wrong variant or severity, or an early `return Ok(..)` / `continue` that leaves partial state behind;
+ * the order of two operations that each are fine (record before act, remove before insert, persist before send, event before state change, drain before check);
+ * collections: a wrong key, an entry overwritten instead of merged, a stale entry not removed, an iteration that stops early (find / take_while / any vs. filter / all), a missing or extra dedup;
+ * arithmetic: saturating vs checked vs wrapping, rounding direction (div_ceil vs floor), msat -> sat truncation on the wrong side, a fee or weight computed for the wrong transaction shape.
+Avoid the best-known central guard of the best-known function; sibling routines, second arms, restart / reorg / reconnect paths and helpers are better.
+When you run a crate's whole lib suite use `timeout 1200 cargo test --offline -p <crate> --lib -- --test-threads 8`; one threaded test of the
+repository (chanmon_update_fail_tests::test_single_channel_multiple_mpp) occasionally dead-locks on a loaded machine whatever the patch - if a run
+hangs there, kill it and run it again rather than waiting.""",
  'r4': """Kinds of change I am most interested in this time (pick two DIFFERENT kinds, in two DIFFERENT functions, ideally in two different files):
  * an interaction between two features that each work alone (splicing / pending splice candidates, anchor and zero-fee-commitment channel types, 0-conf and SCID aliases, async payments / static invoices, trampoline, blinded paths and dummy hops, dual-funded v2 open, quiescence, interception, phantom nodes, batch funding, MPP + keysend, held HTLCs, async signing, async persistence);
  * a rarely used public entry point or timer path (force close variants, abandon_payment, fail_htlc_backwards_with_reason, timer_tick_occurred, peer_disconnected at an odd moment, signer_unblocked, rebroadcast / bump paths, archive / prune paths, rapid gossip sync, remove-stale routines);
